@@ -568,7 +568,11 @@ def Roi.rotateTo : Roi → Rat → Rat → Roi
     else .poly { vs := g.vs.map (rotAbout (polyCenter g.vs) dc ds), c := c, s := s }
   | roi, _, _ => roi
 
-/-- `copy()` (`copy.copy`): same parameters. -/
+/-- `copy()`: a clone with the same parameters.  The model's regions are values, so the clone is the
+same value; what matters is that it is *independent* of the original afterwards — `VertexROIBase.copy`
+gives the clone its own `vx` / `vy` lists (fix F24; `copy.copy` alone shared the two list objects),
+`Projected3dROI.copy` its own 2-d region, `CategoricalROI.copy` its own array.  The independence is
+what the `forkEdit` operations below exercise. -/
 def Roi.copy (r : Roi) : Roi := r
 
 /-- Values stored in a `__gluestate__` record. -/
@@ -637,6 +641,11 @@ def Roi.restored : Roi → Roi
 
 /-! ## Sequences of operations: what the code does and what the property demands -/
 
+/-- The in-place vertex edits of `VertexROIBase`. -/
+inductive VEdit where
+  | add | replaceLast | remove
+  deriving Repr, DecidableEq
+
 inductive Op where
   | move (t : Pt)
   | rotate (c s : Rat)
@@ -652,9 +661,13 @@ inductive Op where
   | replaceLast (p : Pt)
   /-- `remove_point(x, y)` (no threshold): drops the vertex nearest to the reference point. -/
   | removePoint (p : Pt)
-  /-- `c = roi.copy(); roi.add_point(x, y); continue with c` — `copy()` is `copy.copy`, the vertex
-  lists are shared, so the copy follows an in-place edit of the original (finding F24). -/
-  | forkAdd (p : Pt)
+  /-- A copy and a vertex edit on ONE of the two objects, observing the OTHER one:
+  `onCopy = false`: `c = roi.copy(); roi.<edit>(x, y); continue with c` (edit the original after copying);
+  `onCopy = true`:  `c = roi.copy(); c.<edit>(x, y); continue with roi` (edit the copy).
+  With `VertexROIBase.copy` copying the vertex lists (fix F24) the observed object is untouched.  On the
+  pinned tree (`copy.copy`: the two list objects are shared) it followed `add_point` and
+  `replace_last_point` — `Pinned.applyOp`. -/
+  | forkEdit (onCopy : Bool) (e : VEdit) (p : Pt)
   deriving Repr
 
 /-! ### redefinition of a region object: what each class resets and what it keeps (as coded) -/
@@ -716,10 +729,29 @@ def applyOp (r : Roi) : Op → Roi
   | .addPoint p => r.editVs (editAdd · p)
   | .replaceLast p => r.editVs (editReplaceLast · p)
   | .removePoint p => r.editVs (editRemove · p)
-  | .forkAdd p => r.editVs (editAdd · p)
+  | .forkEdit _ _ _ => r.copy     -- the clone owns its vertex lists: the object not edited is unchanged
 
 def applyOps (r : Roi) (ops : List Op) : Roi := ops.foldl applyOp r
 end Impl
+
+/-- The vertex edit `e` as a function on vertex lists. -/
+def VEdit.fn : VEdit → List Pt → Pt → List Pt
+  | .add => editAdd
+  | .replaceLast => editReplaceLast
+  | .remove => editRemove
+
+/- Pinned model (the tree before fix F24, not the code that exists now): `Roi.copy()` is `copy.copy`,
+the clone and the original share the `vx` / `vy` list objects, so `add_point` (`append`) and
+`replace_last_point` (`vx[-1] = x`) on either object are seen through the other one; `remove_point`
+rebinds the lists of the edited object and is not.  Used for the `decide`d witness of F24. -/
+namespace Pinned
+def applyOp (r : Roi) : Op → Roi
+  | .forkEdit _ .add p => r.editVs (editAdd · p)
+  | .forkEdit _ .replaceLast p => r.editVs (editReplaceLast · p)
+  | op => Impl.applyOp r op
+
+def applyOps (r : Roi) (ops : List Op) : Roi := ops.foldl applyOp r
+end Pinned
 
 /- Variant model (not the code that exists): `VertexROIBase.reset()` keeps `theta`, "as the
 rectangle's and the ellipse's reset do" — seeded change C08c.  Used for a `decide`d witness that the
@@ -805,7 +837,7 @@ def step (st : SpecState) : Op → SpecState
   | .addPoint p => edit st (editAdd · p)
   | .replaceLast p => edit st (editReplaceLast · p)
   | .removePoint p => edit st (editRemove · p)
-  | .forkAdd _ => st          -- a copy is the same region, whatever happens to the original afterwards
+  | .forkEdit _ _ _ => st     -- a copy is the same region, whatever happens to the other object afterwards
 where
   /-- A vertex edit re-bases the specification on the polygon whose vertices are the current
   (moved) vertices, edited; the position angle is kept. -/
